@@ -56,19 +56,29 @@ func showPanic(p any) string {
 	return tr.Show(p)
 }
 
-// Move advances once; a panic is attributed to this call.
+// Move advances once; a panic is attributed to this call. A panic is detected by the call not
+// returning (not by recover() != nil), so that panic(nil) under GODEBUG=panicnil=1 is seen too.
 func Move[V any](it It[V]) (ok bool, panicked bool) {
 	tr.Log("M>")
+	returned := false
 	defer func() {
-		if p := recover(); p != nil {
-			if _, b := p.(tr.BudgetExceeded); b {
-				panic(p)
-			}
-			panicked = true
+		p := recover()
+		if returned {
+			return
+		}
+		if _, b := p.(tr.BudgetExceeded); b {
+			panic(p)
+		}
+		panicked = true
+		ok = false
+		if p == nil {
+			tr.Log("M<panic:nil-value")
+		} else {
 			tr.Log("M<panic:" + showPanic(p))
 		}
 	}()
 	ok = it.MoveNext()
+	returned = true
 	if ok {
 		tr.Log("M<true")
 	} else {
